@@ -2,6 +2,9 @@ package hcv
 
 import (
 	"flag"
+
+	"golang.org/x/tools/go/ssa"
+
 	"fmt"
 	"os"
 	"strings"
@@ -36,6 +39,19 @@ func Main(args []string) int {
 		return ExplainMain(args[1:])
 	case "list":
 		return ListMain()
+	case "dbgpath":
+		p, err := Load(LoadConfig{Repo: "/repo"})
+		if err != nil {
+			fmt.Fprintln(os.Stderr, err)
+			return 1
+		}
+		DebugPath(p, ResolveAnchors(p), args[1], func(in ssa.Instruction) bool {
+			if s, ok := in.(*ssa.Select); ok {
+				return s.Blocking
+			}
+			return false
+		})
+		return 0
 	case "dbgstrip":
 		p, err := Load(LoadConfig{Repo: "/repo"})
 		if err != nil {
